@@ -143,6 +143,20 @@ def check_operations(ctx):
                 env = {a[-1]: dt}
                 rhs_args = ', '.join(a[:-1])
                 for branch, arr in ((param_branch, a[1]), (species_branch, a[0])):
+                    real = [x for x in branch if not (isinstance(x, ast.Expr) and isinstance(x.value, ast.Constant))]
+                    if len(real) == 1 and isinstance(real[0], ast.Expr) and isinstance(real[0].value, ast.Call) and \
+                            src(real[0].value.func) in ('self.rule_operation', 'self.rule_volume_operation'):
+                        # delegation to the sibling slot: plain -> volume with volume 1 is the same update; volume -> plain loses the volume
+                        c = real[0].value
+                        other = src(c.func).split('.')[-1]
+                        av = [src(x) for x in c.args]
+                        if meth == 'rule_operation' and other == 'rule_volume_operation' and len(av) == 5 and \
+                                [av[0], av[1], av[3], av[4]] == a and util.const_num(c.args[2]) == 1:
+                            continue
+                        problems.append('%s branch delegates to %s(%s): the right-hand side is then evaluated %s' % (
+                            'parameter' if arr == a[1] else 'species', other, ', '.join(av),
+                            "without the volume ('volume' reads 1 although a volume is in play)" if meth == 'rule_volume_operation' else 'by another slot'))
+                        continue
                     tgt, val = branch_store(se, branch, env)
                     if tgt != '%s[self.dest_index]' % arr:
                         problems.append('%s branch stores into %s, expected %s[self.dest_index]' % ('parameter' if arr == a[1] else 'species', tgt, arr))
@@ -476,6 +490,18 @@ def check(ctx):
     check_deterministic(ctx)
     check_registration(ctx)
     check_dt(ctx)
+    # "reaction rates are computed from the rule-updated species and parameters": every iteration re-evaluates the propensities from the
+    # current (rule-updated) state before the next event is drawn, with nothing written in between (C05 R5.2-order / R5.2-choice) - re-emitted
+    from ..core import SubCtx
+    from . import c05
+    prog.mod('random')
+    sub = SubCtx(ctx)
+    for key in simloop.SIMULATORS:
+        c05.check_loop(sub, key)
+    for rule, key, ok, where, what, detail in sub.got:
+        if rule in ('R5.2-order', 'R5.2-choice', 'R5.2-lambda'):
+            ctx.ob('R9.3-rates-after-rules', '%s/%s' % (rule, key), ok, where, what, detail)
+    ctx.floor('R9.3-rates-after-rules', 12)
     ctx.floor('R9.1-firing-predicate', 2)
     ctx.floor('R9.2-operation', 5)
     ctx.floor('R9.3-rules-first', 5)
